@@ -88,6 +88,19 @@ class Topology:
             for j in range(rng.randrange(1, 4)):
                 knows = rng.random() < 0.5 if known is None else known
                 self.add_station(n, 1 + j, knows)
+        # station addresses are unique per network only: a station on one of a router's networks that happens to have the
+        # address the router itself has on another of its networks
+        for r in self.routers:
+            nets = list(r["ports"])
+            if len(nets) < 2 or rng.random() < 0.5:
+                continue
+            for own in (nets[0], nets[-1]):
+                n = rng.choice([x for x in nets if x != own])
+                mac = r["ports"][own]
+                if any(q["ports"].get(n) == mac for q in self.routers) or ("S%d.%d" % (n, mac)) in self.stations:
+                    continue
+                self.add_station(n, mac, rng.random() < 0.5 if known is None else known)
+                self.coincidences = getattr(self, "coincidences", 0) + 1
 
     def add_router(self, ports, announce):
         idx = len(self.routers)
@@ -97,7 +110,7 @@ class Topology:
         r = {"ports": {}, "nsap": nsap, "nse": nse, "name": "R%d" % idx}
         hosts_app = bool(self.router_apps and self.rng.random() < self.router_apps)
         for k, n in enumerate(ports):
-            mac = 100 + idx
+            mac = 100 + idx + 20 * k            # station addresses are per network: a router's differ from port to port
             node = Node(Address(mac), self.nets[n])
             if hosts_app and k > 0:
                 nsap.bind(node, n)              # the way the library's documentation binds the further ports of a router:
@@ -151,7 +164,7 @@ def shown_through_other_port(topo, src, shown, receiver_net):
     """an application hosted by a router sent through one of the router's other ports: the source shown is the router's
     address on that port's network, not the application's own"""
     net = shown.addrNet if shown.addrType == Address.remoteStationAddr else receiver_net
-    return other_port(topo, src, net) and shown.addrAddr == bytes([topo.stations[src]["mac"]])
+    return other_port(topo, src, net) and shown.addrAddr == bytes([topo.stations[src]["router"]["ports"][net]])
 
 
 def expected_recipients(topo, src, kind, target):
@@ -234,6 +247,7 @@ def run_bursts(run, rng, nnets, announce):
     of the first can have come back): each is delivered once to exactly its recipients"""
     CLOCK.reset()
     topo = Topology(rng, nnets, announce=announce, router_apps=rng.choice([0.0, 0.5]))
+    run.count("stations_sharing_an_address_with_a_router_port_elsewhere", getattr(topo, "coincidences", 0))
     CLOCK.drive(duration=1.0, max_steps=200000)
     st = topo.stations
     names = sorted(st)
